@@ -33,7 +33,7 @@ SEARCHPROPS == {"C01", "C02", "C03", "C04", "C05"}
 ALLP == {"C01", "C02", "C03", "C04", "C05", "C06", "C07", "C08", "C09", "C10",
          "C11", "C12", "C13", "C14", "C15"}
 
-EmptyState == [autos |-> <<>>, iters |-> <<>>]
+EmptyState == [autos |-> <<>>, iters |-> <<>>, seen |-> <<>>]
 
 \* ---------------------------------------------------------------------------
 \* build
@@ -84,14 +84,17 @@ MethodProp(method, kind) ==
   CASE method = "ov" -> "C01" [] method = "find" -> "C02" [] method = "nosuf" -> "C05"
     [] method = "lm" -> IF kind = "LL" THEN "C03" ELSE "C04"
 
-\* the properties under which the result of this search is compared
-ResultProps(a, method, entry, thread) ==
-     {MethodProp(method, a.kind), "C06"}
-  \cup (IF a.var = "C" THEN {"C08"} ELSE {})
-  \cup (IF a.restored THEN {"C09"} ELSE {})
-  \cup (IF a.nfb # 16 THEN {"C11"} ELSE {})
-  \cup (IF entry = "iter" THEN {"C12"} ELSE {})
-  \cup {"C14"}
+\* Absolute comparisons (against the model and the declarative meaning) decide the property of
+\* the search method.  The relational properties (C08 char-wise = byte-wise, C09 restored =
+\* original, C11 other num_free_blocks = default, C12 iterator entry = slice entry, C14 repeated
+\* or concurrent = first) are decided by comparing with the reference run recorded earlier in
+\* the same scenario, so that a defect which makes both sides wrong alike is not reported as a
+\* violation of a property that still holds.
+ResultProps(a, method) == {MethodProp(method, a.kind)}
+RELP == {"C08", "C09", "C11", "C12", "C14"}
+
+ValStrs(a) == [i \in 1..Len(a.pats) |-> ValStr(a, i)]
+RefKey(a, method, hay) == <<a.kind, a.bpats, ValStrs(a), method, hay>>
 
 MethodOK(a, method) == IF a.kind = "STD" THEN method \in {"ov", "find", "nosuf"} ELSE method = "lm"
 
@@ -99,13 +102,14 @@ MethodOK(a, method) == IF a.kind = "STD" THEN method \in {"ov", "find", "nosuf"}
 \* establish that the operational model agrees with it
 OracleAffordable(a, hay) == Len(hay) * Len(a.pats) <= 60000
 
-SearchFails(a, ev) ==
+SearchFails(s, a, ev) ==
   LET hay  == ev.hay
       syms == SymsOf(a, hay)
       got  == Got(ev.res)
-      rp   == ResultProps(a, ev.method, ev.entry, ev.thread)
+      rp   == ResultProps(a, ev.method)
       run  == RunAll(a.aut, ev.method, syms, a.var)
       n    == Len(hay)
+      key  == RefKey(a, ev.method, hay)
   IN
   IF ~MethodOK(a, ev.method) THEN {"search.method_kind_mismatch"} ELSE
      Chk("search.terminates", rp \cup {"C13", "C07"}, ~ev.capped)
@@ -113,6 +117,7 @@ SearchFails(a, ev) ==
   \cup Chk("search.equals_meaning", rp,
            OracleAffordable(a, hay) =>
               got = WithVals(a, Expected(ev.method, a.kind, a.bpats, hay)))
+  \cup Chk("search.same_as_reference", RELP, key \in DOMAIN s.seen => got = s.seen[key])
   \cup Chk("search.true_occurrence_and_value", {"C06"},
            \A i \in 1..Len(got) :
               /\ 0 <= got[i][1] /\ got[i][1] < got[i][2] /\ got[i][2] <= n
@@ -159,7 +164,16 @@ SpecChain(a, op) ==
   LET c == ChainOf(a.aut.outs, op) IN [i \in 1..Len(c) |-> <<c[i][1], ValStr(a, c[i][2])>>]
 HeadOf(c) == IF c = <<>> THEN <<>> ELSE <<c[1]>>
 
-TableFails(a, ev) ==
+\* the automaton a table encodes, independent of the slot layout: BFS order by label is canonical
+NormTable(ev) ==
+  [i \in 1..Len(ev.slots) |->
+     <<ev.slots[i].par, ev.slots[i].lab, ev.slots[i].failidx,
+       IF \A k \in 1..Len(ev.outs) : ev.outs[k].parent >= 0 /\ ev.outs[k].parent < k
+          /\ ev.slots[i].opos >= 0 /\ ev.slots[i].opos <= Len(ev.outs)
+       THEN ChainOf(ev.outs, ev.slots[i].opos) ELSE <<"bad chain">>>>]
+TableKey(a) == <<"table", a.var, a.kind, a.bpats, [i \in 1..Len(a.pats) |-> ValStr(a, i)]>>
+
+TableFails(s, a, ev) ==
   LET nfa    == a.aut
       slots  == ev.slots
       n      == Len(slots)
@@ -172,10 +186,14 @@ TableFails(a, ev) ==
                 /\ Cardinality({nodeOf[i] : i \in 1..n}) = n
       outsRanked == \A k \in 1..Len(ev.outs) : ev.outs[k].parent >= 0 /\ ev.outs[k].parent < k
       oposOK == \A i \in 1..n : slots[i].opos >= 0 /\ slots[i].opos <= Len(ev.outs)
-      TP     == SEARCHPROPS \cup {"C08", "C11"} \cup (IF a.restored THEN {"C09"} ELSE {})
+      TP     == SEARCHPROPS
   IN
+     \* relational properties: the same automaton as the reference table of this scenario
+     \* (C09: restored = original, C11: other num_free_blocks = default)
+     Chk("table.same_as_reference", {"C09", "C11"},
+         TableKey(a) \in DOMAIN s.seen => NormTable(ev) = s.seen[TableKey(a)])
      \* trie shape: exactly the spec's edges, for all 256 bytes / all mapper codes
-     Chk("table.edges_exact", TP \cup {"C15"}, iso)
+  \cup Chk("table.edges_exact", TP \cup {"C15"}, iso)
   \cup Chk("table.count", {"C15", "C11"}, n = ev.num_states /\ n = Cardinality(Nodes(nfa)))
      \* closure of all reachable indices under every label (C07)
   \cup Chk("table.closure", {"C07", "C11"} \cup (IF a.restored THEN {"C09"} ELSE {}),
@@ -262,14 +280,22 @@ DecodeFails(ev) ==
 \* stepwise iterators (C12: interleavings of next() calls with inspection of the source)
 IterOf(a, ev) ==
   [h |-> ev.h, method |-> ev.method, entry |-> ev.entry, hay |-> ev.hay,
-   syms |-> SymsOf(a, ev.hay), it |-> NewIter(ev.method), done |-> FALSE]
+   syms |-> SymsOf(a, ev.hay), it |-> NewIter(ev.method), n |-> 0]
 
-NextFails(a, ir, ev) ==
+NextFails(s, a, ir, ev) ==
   LET r   == NextCall(a.aut, ir.it, ir.syms, a.var)
       got == Got(ev.res)
       exp == IF r.m = <<>> THEN <<>> ELSE WithVals(a, <<r.m>>)
-      rp  == {MethodProp(ir.method, a.kind), "C06", "C12", "C14"}
+      rp  == {MethodProp(ir.method, a.kind)}
+      k   == ir.n + 1
   IN Chk("next.equals_model", rp, got = exp)
+     \* C12/C14: the k-th call returns what the k-th element of the reference run (slice entry,
+     \* uninterrupted) of the same search returned
+     \cup Chk("next.same_as_reference", {"C12", "C14"},
+              LET key == RefKey(a, ir.method, ir.hay) IN
+              key \in DOMAIN s.seen =>
+                 LET ref == s.seen[key] IN
+                 IF k <= Len(ref) THEN got = <<ref[k]>> ELSE got = <<>>)
      \cup Chk("next.lazy", {"C12"},
               ir.entry = "iter" =>
                  /\ ev.pulled = Pulled(r.it, ir.syms)
@@ -286,9 +312,9 @@ HasIter(s, i) == i \in DOMAIN s.iters
 Fails(s, ev) ==
   CASE ev.ev = "build" -> BuildFails(ev, SpecBuild(ev))
     [] ev.ev = "table" ->
-         IF HasAuto(s, ev.h) THEN TableFails(s.autos[ev.h], ev) ELSE {"unknown_handle"}
+         IF HasAuto(s, ev.h) THEN TableFails(s, s.autos[ev.h], ev) ELSE {"unknown_handle"}
     [] ev.ev = "search" ->
-         IF HasAuto(s, ev.h) THEN SearchFails(s.autos[ev.h], ev) ELSE {"unknown_handle"}
+         IF HasAuto(s, ev.h) THEN SearchFails(s, s.autos[ev.h], ev) ELSE {"unknown_handle"}
     [] ev.ev = "roundtrip" ->
          IF HasAuto(s, ev.h) THEN RoundtripFails(s.autos[ev.h], ev) ELSE {"unknown_handle"}
     [] ev.ev = "same" ->
@@ -299,7 +325,7 @@ Fails(s, ev) ==
     [] ev.ev = "iter_new" -> IF HasAuto(s, ev.h) THEN {} ELSE {"unknown_handle"}
     [] ev.ev = "next" ->
          IF HasIter(s, ev.it)
-         THEN NextFails(s.autos[s.iters[ev.it].h], s.iters[ev.it], ev) ELSE {"unknown_iter"}
+         THEN NextFails(s, s.autos[s.iters[ev.it].h], s.iters[ev.it], ev) ELSE {"unknown_iter"}
     \* a crash (abort by std's unsafe-precondition checks, panic, hop limit) is never allowed
     [] ev.ev = "crash" -> {"crash"}
     [] OTHER -> {"unknown_event"}
@@ -309,6 +335,12 @@ Eff(s, ev) ==
          LET r == SpecBuild(ev) IN
          IF ev.outcome = "ok" /\ r.res = "ok"
          THEN [s EXCEPT !.autos = (ev.h :> AutoOf(ev, r)) @@ @] ELSE s
+    [] ev.ev = "search" ->
+         LET key == RefKey(s.autos[ev.h], ev.method, ev.hay) IN
+         IF key \in DOMAIN s.seen THEN s ELSE [s EXCEPT !.seen = (key :> Got(ev.res)) @@ @]
+    [] ev.ev = "table" ->
+         LET key == TableKey(s.autos[ev.h]) IN
+         IF key \in DOMAIN s.seen THEN s ELSE [s EXCEPT !.seen = (key :> NormTable(ev)) @@ @]
     [] ev.ev = "roundtrip" ->
          [s EXCEPT !.autos = (ev.h2 :> [s.autos[ev.h] EXCEPT !.restored = TRUE]) @@ @]
     [] ev.ev = "iter_new" ->
@@ -316,7 +348,7 @@ Eff(s, ev) ==
     [] ev.ev = "next" ->
          LET ir == s.iters[ev.it]
              r  == NextCall(s.autos[ir.h].aut, ir.it, ir.syms, s.autos[ir.h].var)
-         IN [s EXCEPT !.iters[ev.it].it = r.it]
+         IN [s EXCEPT !.iters[ev.it].it = r.it, !.iters[ev.it].n = @ + 1]
     [] OTHER -> s
 
 \* ---------------------------------------------------------------------------
